@@ -71,3 +71,7 @@ def replay_native(native):
             r = s.check_args(args)
             return r.to_json() if isinstance(r, rtc.Failure) else None
     return None
+
+
+# thorough tier: deliberate edits that must turn an obligation red (applied to a scratch copy, never to /repo)
+MUTATIONS = [('contracts.overlap', 'ensure_minimum_chunksize', 'dask/array/overlap.py', '            if new > size + (size - c):', '            if new > size:'), ('contracts.overlap', '_overlap_internal_chunks', 'dask/array/overlap.py', '            left = [bds[0] + right_depth]', '            left = [bds[0] + left_depth]'), ('contracts.overlap', 'trim_internal', 'dask/array/overlap.py', '                d = d - overlap[1] if j != len(bd) - 1 else d', '                d = d - overlap[0] if j != len(bd) - 1 else d')]
